@@ -103,6 +103,12 @@ Theorem core_results_latest_not_verified (H : bytes -> bytes) (lt : Z) (rs : res
 Proof. exact (core_results_latest_not_verified_l H lt rs nrh lb m). Qed.
 Print Assumptions core_results_latest_not_verified.
 
+Theorem core_tx_results_binds (H : bytes -> bytes) (lt : Z) (txs : list bytes) (rs : results) (nrh : option (option bytes)) (ok : bool) (lb : light_block) :
+  core_get_transactions_with_results H (verify_transactions H txs lb) lt rs nrh ok lb = BOk ->
+  verify_transactions H txs lb = BOk /\ core_verify_block_results H lt rs nrh lb = BOk.
+Proof. exact (core_tx_results_binds_l H lt txs rs nrh ok lb). Qed.
+Print Assumptions core_tx_results_binds.
+
 Theorem verify_transactions_binds (H : bytes -> bytes) (hlen : nat) (H_len : forall x, length (H x) = hlen) (txs1 txs2 : list bytes) (lb : light_block) :
   verify_transactions H txs1 lb = BOk -> verify_transactions H txs2 lb = BOk ->
   txs1 = txs2 \/ collision H.
